@@ -544,6 +544,41 @@ func (ev *tplEval) evalList(fc *fctx, e ast.Expr) (Sketch, bool) {
 		return true
 	})
 	if len(elems) == 0 {
+		// a list received as a parameter: the alternative of what the call sites pass
+		if pi := paramIndexDecl(info, fc.fn, obj); pi >= 0 && !ev.paramBusy[obj] {
+			ev.paramBusy[obj] = true
+			defer delete(ev.paramBusy, obj)
+			target := info.Defs[fc.fn.Name]
+			var opts []Sketch
+			seen := map[string]bool{}
+			for _, fi := range sortedFuncs(ev.w) {
+				if fi.Decl.Body == nil {
+					continue
+				}
+				ast.Inspect(fi.Decl.Body, func(n ast.Node) bool {
+					call, ok := n.(*ast.CallExpr)
+					if !ok {
+						return true
+					}
+					if fn := calleeOf(fi.Pkg.TypesInfo, call); fn != nil && types.Object(fn) == target && pi < len(call.Args) {
+						if el, ok := ev.evalList(newFctx(fi.Pkg, fi.Decl), call.Args[pi]); ok {
+							if k := el.String(); !seen[k] {
+								seen[k] = true
+								opts = append(opts, el)
+							}
+						}
+					}
+					return true
+				})
+			}
+			switch len(opts) {
+			case 0:
+			case 1:
+				return opts[0], true
+			default:
+				return Sketch{Alt{opts}}, true
+			}
+		}
 		return nil, false
 	}
 	if presized && conditionalStore {
@@ -1268,4 +1303,19 @@ func (ev *tplEval) tableValues(t *pkgTableInfo) Sketch {
 		return opts[0]
 	}
 	return Sketch{Alt{opts}}
+}
+
+
+// paramIndexDecl: the position of obj among the parameters of fd, -1 when it is not one.
+func paramIndexDecl(info *types.Info, fd *ast.FuncDecl, obj types.Object) int {
+	i := 0
+	for _, f := range fd.Type.Params.List {
+		for _, nm := range f.Names {
+			if info.Defs[nm] == obj {
+				return i
+			}
+			i++
+		}
+	}
+	return -1
 }
